@@ -144,6 +144,7 @@ type ContractSet struct {
 	Ghosts     map[string]*GhostVar
 	Lemmas     []*Lemma
 	GlobalInvs map[string][]Clause // per package path: invariants over package-level variables, proved of init()
+	Frozen     []ClosesOnly        // fields written only during construction of their object (checked module-wide): calls cannot change them
 	ClosesOnly []ClosesOnly        // channel-typed fields on which nothing is ever sent (checked): a completed receive means closed
 	Files      []string
 	Scan       map[string]int // counts of assume/trusted/etc tokens
@@ -218,7 +219,7 @@ func readContractLines(path string) ([]rawLine, string, error) {
 	return out, pkg, nil
 }
 
-var topKeywords = map[string]bool{"pred": true, "ghost": true, "fnspec": true, "func": true, "lemma": true, "globalinv": true, "closesonly": true}
+var topKeywords = map[string]bool{"pred": true, "ghost": true, "fnspec": true, "func": true, "lemma": true, "globalinv": true, "closesonly": true, "frozen": true}
 var clauseKeywords = map[string]bool{
 	"props": true, "requires": true, "ensures": true, "onpanic": true, "modifies": true, "nopanic": true,
 	"maypanic": true, "recovers": true, "loop": true, "dyncall": true, "ghost": true, "assert": true,
@@ -286,6 +287,16 @@ func (cs *ContractSet) LoadContractFile(path, pkgPath string) error {
 				return fmt.Errorf("%s:%d: closesonly Type.field", path, it.head.line)
 			}
 			cs.ClosesOnly = append(cs.ClosesOnly, ClosesOnly{PkgPath: pkgPath, Type: parts[0], Field: parts[1], Props: props, File: path, Line: it.head.line})
+		case "frozen":
+			// frozen {Cxx} Type.field [Type.field ...]: fields assigned only while their object is being built
+			_, props, txt := stripTags(rest)
+			for _, tf := range strings.Fields(txt) {
+				parts := strings.SplitN(tf, ".", 2)
+				if len(parts) != 2 {
+					return fmt.Errorf("%s:%d: frozen Type.field ...", path, it.head.line)
+				}
+				cs.Frozen = append(cs.Frozen, ClosesOnly{PkgPath: pkgPath, Type: parts[0], Field: parts[1], Props: props, File: path, Line: it.head.line})
+			}
 		case "globalinv":
 			label, props, txt := stripTags(rest)
 			e, err := parseSpecExpr(txt)
@@ -798,4 +809,11 @@ func lastOpenParen(s string) int {
 		}
 	}
 	return -1
+}
+
+
+// modifiesAll: the contract allows the function to change anything (explicit `modifies all`, or no
+// modifies clause at all: then nothing is promised and nothing is frame-checked).
+func (fc *FuncContract) modifiesAll() bool {
+	return fc.ModAll || (len(fc.Modifies) == 0 && !fc.ModNone)
 }
